@@ -131,6 +131,8 @@ pub enum MErr {
 
 #[derive(Clone, Debug)]
 struct Saved {
+    owner_dyn: bool,
+    caller_dyn: bool,
     hidden: Vec<u64>,
     ctx: u32,
     fmp: u64,
@@ -160,6 +162,9 @@ pub struct Model {
     /// values handed out (front first) for loop-condition reads marked with COND_MARK
     pub cond_script: Vec<u64>,
     owner: Option<usize>,
+    /// the current context was entered through dyncall
+    owner_dyn: bool,
+    caller_dyn: bool,
     in_syscall: bool,
     caller: Option<usize>,
     saved: Vec<Saved>,
@@ -210,6 +215,8 @@ impl Model {
             adv_pushed: vec![],
             cond_script: vec![],
             owner: None,
+            owner_dyn: false,
+            caller_dyn: false,
             in_syscall: false,
             caller: None,
             saved: vec![],
@@ -483,10 +490,12 @@ impl Model {
         r
     }
 
-    fn call_proc(&mut self, prog: &Prog, p: usize, syscall: bool, _dyn: bool) -> R {
+    fn call_proc(&mut self, prog: &Prog, p: usize, syscall: bool, is_dyn: bool) -> R {
         self.ctx_switches += 1;
         let hidden: Vec<u64> = self.st.drain(16..).collect();
         let saved = Saved {
+            owner_dyn: self.owner_dyn,
+            caller_dyn: self.caller_dyn,
             hidden,
             ctx: self.ctx,
             fmp: self.fmp,
@@ -501,6 +510,7 @@ impl Model {
         self.uncertain = false; // the callee starts with exactly 16 visible items
         if syscall {
             self.caller = self.owner;
+            self.caller_dyn = self.owner_dyn;
             self.in_syscall = true;
             self.ctx = 0;
             self.fmp = SYSCALL_FMP_MIN;
@@ -509,6 +519,7 @@ impl Model {
             self.next_ctx += 1;
             self.fmp = FMP_MIN;
             self.owner = Some(p);
+            self.owner_dyn = is_dyn;
             self.in_syscall = false;
             self.caller = None;
         }
@@ -526,6 +537,8 @@ impl Model {
         self.ctx = s.ctx;
         self.fmp = s.fmp;
         self.owner = s.owner;
+        self.owner_dyn = s.owner_dyn;
+        self.caller_dyn = s.caller_dyn;
         self.in_syscall = s.in_syscall;
         self.caller = s.caller;
         self.init_locals = s.init_locals;
@@ -1074,6 +1087,10 @@ impl Model {
                     return Err(MErr::Undefined("caller outside a syscall"));
                 }
                 let p = self.caller.ok_or(MErr::Undefined("caller of a syscall made from the root context"))?;
+                if self.caller_dyn {
+                    // known finding C07:caller-after-dyncall: excluded here, demonstrated by its own sub-check
+                    return Err(MErr::Undefined("caller in a context entered through dyncall"));
+                }
                 for k in 0..4 {
                     // overwrite the top word with the digest (d3 on top)
                     self.set(3 - k, SYM_BASE + (p as u64) * 4 + k as u64);
